@@ -373,3 +373,28 @@ func fieldName(fa *ssa.FieldAddr) string {
 	}
 	return st.Field(fa.Field).Name()
 }
+
+// phiEdgePolarity: the polarity (+1/-1) with which the literal matching `match` is crossed
+// on the way into edge i of phi ph — on the edge pred→phi block itself, or on the single
+// edge into pred when pred is a straight-line 'then' block. 0 when no such literal.
+func phiEdgePolarity(ph *ssa.Phi, i int, match func(atom string) bool) int {
+	pred := ph.Block().Preds[i]
+	polar := 0
+	check := func(b, to *ssa.BasicBlock) {
+		for j, sc := range b.Succs {
+			if sc == to {
+				if l, has := engine.EdgeLit(b, j); has && match(l.Atom) {
+					polar = -1
+					if l.Pos {
+						polar = 1
+					}
+				}
+			}
+		}
+	}
+	check(pred, ph.Block())
+	if polar == 0 && len(pred.Preds) == 1 {
+		check(pred.Preds[0], pred)
+	}
+	return polar
+}
